@@ -11,6 +11,7 @@ import (
 	"github.com/resonatehq/resonate/internal/kernel/t_api"
 	"github.com/resonatehq/resonate/internal/metrics"
 	"github.com/resonatehq/resonate/internal/util"
+	"github.com/resonatehq/resonate/internal/verifhook"
 )
 
 type API interface {
@@ -121,6 +122,7 @@ func (a *api) Signal(cancel <-chan any) <-chan any {
 
 		select {
 		case sqe := <-a.sq:
+			verifhook.Point("api.signal.beforeBuffer")
 			util.Assert(a.buffer == nil, "buffer must be nil")
 			a.buffer = sqe
 		case <-cancel:
@@ -167,6 +169,7 @@ func (a *api) EnqueueSQE(sqe *bus.SQE[t_api.Request, t_api.Response]) {
 		sqe.Callback(nil, t_api.NewError(t_api.StatusSystemShuttingDown, nil))
 		return
 	}
+	verifhook.Point("api.enqueue.afterDoneCheck")
 
 	select {
 	case a.sq <- sqe:
